@@ -615,6 +615,31 @@ func crashExec(ops []string) (dops []string, res []string) {
 					extraOps = append(extraOps, fmt.Sprintf("expectok nested image %d.%d", i, j))
 					extraRes = append(extraRes, fmt.Sprintf("SPEC-VIOLATION crash at point %d, crash again at point %d of the recovery: %s", i, j, problem))
 				}
+				// the second crash additionally loses what the recovery had written but not yet fsynced (C14)
+				if lossy > 0 {
+					cutAny := false
+					os.RemoveAll(w2)
+					copyDir(img2.dir, w2)
+					for f, sl := range img2.files {
+						if sl[1] > sl[0] {
+							p := filepath.Join(w2, f)
+							if b, err := os.ReadFile(p); err == nil && int64(len(b)) >= sl[0] {
+								os.WriteFile(p, b[:sl[0]], 0644)
+								cutAny = true
+							}
+						}
+					}
+					if cutAny {
+						reads, problem, _ := openAndRead(w2, cfg, keys, nil)
+						if problem == "" {
+							problem = checkVisible(reads, r.acked, img.acked, img.inflight, keys, false)
+						}
+						if problem != "" {
+							extraOps = append(extraOps, fmt.Sprintf("expectok nested lossy image %d.%d", i, j))
+							extraRes = append(extraRes, fmt.Sprintf("SPEC-VIOLATION crash at point %d, crash again at point %d of the recovery with its unsynced writes lost: %s", i, j, problem))
+						}
+					}
+				}
 			}
 			os.RemoveAll(sub.root)
 		}
